@@ -190,8 +190,8 @@ func canonCalls(ds []Deny) string {
 
 var gw *gateway
 
-// the known limitation of the wire format, recorded in known_findings.txt: report one (shrunk) witness per run
-var knownClass = map[string]bool{"c02.value-not-carried": true}
+// classes recorded as `finding:` in known_findings.txt (one shrunk witness per run would be reported): none at present
+var knownClass = map[string]bool{}
 
 type verdict struct {
 	ok      bool
@@ -258,6 +258,9 @@ func eval(c *rig.Ctx, cs Case) (verdict, Observed, modelOut) {
 		}
 		if m.Expect.Kind == "forward" {
 			want = "forwarded as exactly " + m.Expect.ID.readable()
+			if !m.Expect.Carried {
+				want = "refused by the gateway and not forwarded (a header cannot carry " + m.Expect.ID.readable() + " unchanged), never forwarded altered"
+			}
 		}
 		return verdict{kind: "judge", class: bad[0], classes: bad, impl: obs, model: m.Expect,
 			what: fmt.Sprintf("%s: %s; must be %s; gateway answered %d, upstream received %s", strings.Join(bad, "+"), cs.readable(), want, obs.Status, got)}, obs, m
@@ -267,7 +270,7 @@ func eval(c *rig.Ctx, cs Case) (verdict, Observed, modelOut) {
 		return verdict{kind: "diff", class: "c02.model-judge", what: fmt.Sprintf("the judge rejects the model's own output (%v) on %s", m.JudgeModel, cs.readable()), model: m}, obs, m
 	}
 	// 3. correspondence
-	wantStatus := map[string]int{"badRequest": 400, "unauthorized": 401, "internalError": 500, "forbidden": 403, "transportRefused": 502, "upstreamRefused": 400, "forwarded": 200}[m.Outcome]
+	wantStatus := map[string]int{"badRequest": 400, "unauthorized": 401, "internalError": 500, "forbidden": 403, "transportRefused": 502, "valueRefused": 502, "upstreamRefused": 400, "forwarded": 200}[m.Outcome]
 	if m.Outcome == "forwarded" && cs.Upgrade {
 		wantStatus = 403 // what the stub upstream answers to an upgrade
 	}
@@ -285,7 +288,7 @@ func eval(c *rig.Ctx, cs Case) (verdict, Observed, modelOut) {
 	}
 	implCalls := callsOf(obs)
 	switch m.Outcome {
-	case "forwarded", "transportRefused", "upstreamRefused":
+	case "forwarded", "transportRefused", "valueRefused", "upstreamRefused":
 		if canonCalls(implCalls) != canonCalls(m.Calls) {
 			return verdict{kind: "diff", class: "c02.authorizer-calls", impl: obs, model: m,
 				what: fmt.Sprintf("authorizer was asked %s, model derives %s; %s", canonCalls(implCalls), canonCalls(m.Calls), cs.readable())}, obs, m
